@@ -1,8 +1,9 @@
 #!/bin/sh
 # Runs the repository's own test-suite (guard OFF: no FFSM2_VERIF define anywhere) the way the
-# baseline was recorded: cmake/ninja build in /repo/_build, then ctest.
+# baseline was recorded: cmake/ninja build in /repo/_build, then the doctest binary itself
+# (the project registers no ctest tests; the binary is what BASELINE.json's 30 entries come from).
 set -e
 B=/repo/_build
 [ -f "$B/build.ninja" ] || cmake -S /repo -B "$B" -G Ninja -DCMAKE_BUILD_TYPE=RelWithDebInfo -DCMAKE_CXX_FLAGS=-Wno-error >/dev/null
 cmake --build "$B" -j16
-ctest --test-dir "$B" -j8 --timeout 900 --output-on-failure
+"$B/ffsm2_test"
